@@ -495,16 +495,21 @@ func mergeEnv(cond string, a, b *Env) *Env {
 
 // clipMid shortens a long text for the table: head … 8 hex digits of the FNV-1a hash of the WHOLE text … tail. A change anywhere
 // in the text changes the printed form; the kernel compares short strings only.
-func clipMid(s string, n int) string {
-	r := []rune(s)
-	if len(r) <= n {
-		return s
-	}
+func fnv32(s string) uint32 {
 	h := uint32(2166136261)
 	for _, b := range []byte(s) {
 		h ^= uint32(b)
 		h *= 16777619
 	}
+	return h
+}
+
+func clipMid(s string, n int) string {
+	r := []rune(s)
+	if len(r) <= n {
+		return s
+	}
+	h := fnv32(s)
 	head, tail := n*3/5, n*2/5-12
 	return string(r[:head]) + fmt.Sprintf("…%08x…", h) + string(r[len(r)-tail:])
 }
@@ -1748,7 +1753,7 @@ func strList(xs []string) string {
 func condList(cs []Cond) string {
 	ps := make([]string, len(cs))
 	for i, c := range cs {
-		ps[i] = fmt.Sprintf("⟨%s, %s, %s⟩", q(c.kind), bl(c.pol), q(clipMid(c.text, 160)))
+		ps[i] = fmt.Sprintf("⟨%s, %s, %s, %d⟩", q(c.kind), bl(c.pol), q(clipMid(c.text, 160)), fnv32(c.text))
 	}
 	return "[" + strings.Join(ps, ", ") + "]"
 }
@@ -1814,12 +1819,13 @@ func main() {
 	}
 	head := "/-! GENERATED by extract/effects from the comdex source tree — do not edit; regenerated on every run.\n" +
 		"Ordered effect skeleton of every covered handler. Item kinds: bank | write | call | guard (see extract/effects/main.go).\n" +
-		"Cond kinds: if | pos | case | loop | exit | continue | break | closure; pol = the condition holds on the item's path. -/\n"
+		"Cond kinds: if | pos | case | loop | exit | continue | break | closure; pol = the condition holds on the item's path;\n" +
+		"h = FNV-1a (32 bit) of the whole normalised condition text (the printed text is shortened head…hash…tail when long). -/\n"
 	// the record types
 	var t strings.Builder
 	t.WriteString(head)
 	t.WriteString("namespace Comdex.Gen.Effects\n\n")
-	t.WriteString("structure Cond where\n  kind : String\n  pol : Bool\n  text : String\n  deriving Repr, DecidableEq\n\n")
+	t.WriteString("structure Cond where\n  kind : String\n  pol : Bool\n  text : String\n  h : Nat\n  deriving Repr, DecidableEq\n\n")
 	t.WriteString("structure Item where\n  kind : String\n  op : String\n  src : String\n  dst : String\n  denom : String\n  amount : String\n  args : List String\n  conds : List Cond\n  inLoop : Bool\n  cache : Bool\n  fn : String\n  line : Nat\n  deriving Repr, DecidableEq\n\n")
 	t.WriteString("structure Handler where\n  module : String\n  name : String\n  file : String\n  line : Nat\n  items : List Item\n  deriving Repr\n\n")
 	t.WriteString("end Comdex.Gen.Effects\n")
